@@ -668,3 +668,39 @@ def expand_items(term: str) -> str:
     e2 = _ExpandItems().visit(e)
     ast.fix_missing_locations(e2)
     return ast.unparse(e2)
+
+
+def inline_pure_calls(term: str, repo: Repo, module: str, depth: int = 0) -> str:
+    """Replace calls of module-level helper functions whose body is a single ``return <expr>`` by that
+    expression (parameters substituted), so that a trivial helper does not hide the value it computes."""
+    if depth > 3:
+        return term
+    try:
+        e = ast.parse(term, mode='eval').body
+    except SyntaxError:
+        return term
+    m = repo.modules.get(module)
+    if m is None:
+        return term
+    changed = [False]
+
+    class _I(ast.NodeTransformer):
+        def visit_Call(self, node):
+            node = self.generic_visit(node)
+            if isinstance(node.func, ast.Name) and node.func.id in m.functions and not node.keywords:
+                fi = m.functions[node.func.id]
+                body = body_without_docstring(fi.node)
+                if len(body) == 1 and isinstance(body[0], ast.Return) and body[0].value is not None \
+                        and len(fi.params) == len(node.args):
+                    env = dict(zip(fi.params, node.args))
+
+                    class _S(ast.NodeTransformer):
+                        def visit_Name(self_inner, n):
+                            return copy.deepcopy(env[n.id]) if n.id in env and isinstance(n.ctx, ast.Load) else n
+                    changed[0] = True
+                    return _S().visit(copy.deepcopy(body[0].value))
+            return node
+    e2 = _I().visit(e)
+    ast.fix_missing_locations(e2)
+    out = ast.unparse(e2)
+    return inline_pure_calls(out, repo, module, depth + 1) if changed[0] and out != term else out
